@@ -6,14 +6,14 @@ for the meaning of the primitives).
 extended) are both `Go.U64`. -/
 namespace Generated.GoBitSet
 
-/-- `func MakeBitSet[T anyUint](items ...T) BitSet[T]` (bit_set.go:11) -/
+/-- `func MakeBitSet[T anyUint](items ...T) BitSet[T]` -/
 def MakeBitSet (items : List Go.U64) : Go.M (Go.U64) := do
   let mut result : Go.U64 := (0 : Go.U64)
   for item in items do
     result := (result ||| item)
   return result
 
-/-- `func (s *BitSet[T]) Add(items ...T) bool` (bit_set.go:20) -/
+/-- `func (s *BitSet[T]) Add(items ...T) bool` -/
 def BitSet.Add (s : Go.U64) (items : List Go.U64) : Go.M (Go.U64 × Bool) := do
   let mut s := s
   let mut added : Bool := false
@@ -25,7 +25,7 @@ def BitSet.Add (s : Go.U64) (items : List Go.U64) : Go.M (Go.U64 × Bool) := do
   s := resultS
   return (s, added)
 
-/-- `func (s *BitSet[T]) Remove(items ...T) bool` (bit_set.go:33) -/
+/-- `func (s *BitSet[T]) Remove(items ...T) bool` -/
 def BitSet.Remove (s : Go.U64) (items : List Go.U64) : Go.M (Go.U64 × Bool) := do
   let mut s := s
   let mut removed : Bool := false
@@ -37,16 +37,16 @@ def BitSet.Remove (s : Go.U64) (items : List Go.U64) : Go.M (Go.U64 × Bool) := 
   s := resultS
   return (s, removed)
 
-/-- `func (s BitSet[T]) MaskOf(in T) BitSet[T]` (bit_set.go:47) -/
+/-- `func (s BitSet[T]) MaskOf(in T) BitSet[T]` -/
 def BitSet.MaskOf (s : Go.U64) («in» : Go.U64) : Go.M (Go.U64) := do
   return (s &&& «in»)
 
-/-- `func (s BitSet[T]) Has(flag T) bool` (bit_set.go:52) -/
+/-- `func (s BitSet[T]) Has(flag T) bool` -/
 def BitSet.Has (s : Go.U64) (flag : Go.U64) : Go.M (Bool) := do
   let mut asFlag : Go.U64 := flag
   return ((s &&& asFlag) == asFlag)
 
-/-- `func (s BitSet[T]) HasAny(flags ...T) bool` (bit_set.go:58) -/
+/-- `func (s BitSet[T]) HasAny(flags ...T) bool` -/
 def BitSet.HasAny (s : Go.U64) (flags : List Go.U64) : Go.M (Bool) := do
   let mut s := s
   for flag in flags do
